@@ -584,6 +584,9 @@ WITNESS_CASES = [
     {"freq": 0, "interval": 1, "wkst": None, "dtstart": [2032, 1, 1, 0, 0, 0, 0], "kind": "naive", "byeaster": [300], "n": 4},
     # former D-C01f (fixed in /repo 968ce74): BYWEEKNO with a start in year 1
     {"freq": 0, "interval": 1, "wkst": 2, "dtstart": [1, 12, 31, 0, 0, 0, 0], "kind": "naive", "byweekno": [26], "count": 1, "n": 3},
+    # D-C01g
+    {"freq": 5, "interval": 120, "wkst": None, "dtstart": [2024, 1, 1, 0, 0, 0, 0], "kind": "naive", "byhour": [1], "n": 3},
+    {"freq": 6, "interval": 3600, "wkst": None, "dtstart": [2024, 1, 1, 0, 0, 0, 0], "kind": "naive", "byminute": [5], "count": 3, "n": 3},
     # D-C01e
     {"freq": 2, "interval": 1, "wkst": None, "dtstart": [2020, 1, 1, 0, 0, 0, 0], "kind": "naive", "byweekday": [[0, 0], [4, 0]], "bysetpos": [1], "n": 5},
 ]
@@ -818,6 +821,11 @@ def _evaluate(ctx, cases, pending):
                               dict(case, diff={"kind": "exception", "exc": kind, "spec": S[0] if S else None}), None)
             elif S:
                 pend("ValueError although the rule matches %s" % S[0], dict(case, diff={"kind": "exception", "exc": kind, "spec": S[0]}), None)
+            elif st.startswith("err_") and c["freq"] >= 5:
+                # the constructor accepted the rule, the recurrence set is empty, and the generator raises instead of stopping
+                ctx.count("oracle_valueerror_while_iterating_and_spec_empty")
+                pend("ValueError raised by the first iteration although the rule is valid and its recurrence set is empty",
+                     dict(case, diff={"kind": "exception-empty", "exc": kind, "spec": None}), None)
             else:
                 ctx.count("oracle_valueerror_and_spec_empty")
             continue
@@ -915,7 +923,13 @@ def k_c01e(v):
     return False
 
 
-CLASS = {"D-C01a": k_c01a, "D-C01c": k_c01c, "D-C01d": k_c01d, "D-C01e": k_c01e}
+def k_c01g(v):
+    r, d = _rule(v), _diff(v)
+    above = r.get("byhour") is not None or (r["freq"] == 6 and r.get("byminute") is not None)
+    return r["freq"] in (5, 6) and above and d.get("kind") == "exception-empty" and d.get("exc") == "ValueError"
+
+
+CLASS = {"D-C01a": k_c01a, "D-C01c": k_c01c, "D-C01d": k_c01d, "D-C01e": k_c01e, "D-C01g": k_c01g}
 
 
 def _known(pred):
